@@ -10,13 +10,15 @@ from rtflite.services.color_service import color_service as svc
 import rtflite.encoding.unified_encoder as ue
 from rtflite.encoding.unified_encoder import UnifiedRTFEncoder
 
-NAMES = ["c0", "c1", "c2"]
+# real colour names (tables are replaced, ranks symbolic): names a change might special-case by literal - white like black -
+# are therefore in play
+NAMES = ["white", "red", "grey50"]
 
 
 def with_tables(ranks, alias, fn):
     saved = (svc._name_to_type, svc._name_to_rtf, svc._name_to_rgb, svc._current_document_colors)
     svc._name_to_type = dict(zip(NAMES, ranks), black=0, zz=10 ** 9)
-    svc._name_to_rtf = {"c0": "RTF0;", "c1": "RTF1;", "c2": "RTF1;" if alias else "RTF2;", "black": "K;", "zz": "ZZ;"}
+    svc._name_to_rtf = {NAMES[0]: "RTF0;", NAMES[1]: "RTF1;", NAMES[2]: "RTF1;" if alias else "RTF2;", "black": "K;", "zz": "ZZ;"}
     try:
         return fn()
     finally:
